@@ -75,6 +75,8 @@ func suite() hlib.Suite {
 			concs := []int{1, 2, 3}
 			if *prop == "C04" {
 				concs = append(concs, 16, 300) // large pools: every worker is woken and used
+			} else {
+				concs = append(concs, 300) // a large pool with every worker in flight: 304 invocations, each with its own id throughout
 			}
 			for _, conc := range concs {
 				for _, limit := range []uint64{1, 2, 3, 7} {
@@ -85,6 +87,9 @@ func suite() hlib.Suite {
 						// third variant: the first iteration marks the scenario-level handle (the one setup got) failed;
 						// the run still makes exactly the allowed iterations
 						// fourth variant (C03 only): every second iteration fails; failed iterations count like any other
+						if *prop == "C03" && conc > 3 && (bi != 1 || limit != 7) {
+							continue
+						}
 						someFail := bi == 3
 						if someFail && *prop != "C03" {
 							continue
